@@ -204,7 +204,10 @@ Definition in_domain (p : project) : bool :=
   && forallb (fun t => negb (has_result2 (rty_of t))) (input_types p)      (* Result only in returns and fields *)
   && forallb (fun f => forallb (fun e => match e with
                                          | PVar v => match lookup_param v (fn_params f) with
-                                                     | Some t => bare_named t | None => false end
+                                                     | Some t => bare_named t
+                                                     (* a local whose type cannot be read off the syntax (untyped let
+                                                        from a call): the tool falls back to the variable's name *)
+                                                     | None => is_ident v && negb (custom_name v) end
                                          | PStruct n => is_ident n
                                          | POther => false end) (fn_emits f)) (all_fns p).
 
